@@ -141,6 +141,12 @@ func AfterFunc(d Duration, f func()) *Timer { return newTimer(d, f) }
 func After(d Duration) <-chan Time          { return newTimer(d, nil).C }
 func Tick(d Duration) <-chan Time           { return rt.Tick(d) }
 
+// Ticker: not used by the code under test today; present (on the real clock) so that a tree that starts using it
+// still builds
+type Ticker = rt.Ticker
+
+func NewTicker(d Duration) *Ticker { return rt.NewTicker(d) }
+
 func (t *Timer) Stop() bool {
 	if t.vt == nil {
 		return t.rt.Stop()
